@@ -1,6 +1,7 @@
 """C03 -- every request is answered with one well-formed response, whatever came before."""
 from __future__ import annotations
 
+import os
 import re
 import typing
 
@@ -42,6 +43,9 @@ def hostile_requests(rng, model, full: bool) -> typing.List[typing.Tuple[str, by
            b"/cgi.sh?a b", b"/cgi.sh|x", b"/echo.pyg?q", b"/umn/one.txt\x00", b"/\x00",
            b"/1/umn", b"/0/umn/one.txt", b"/x/", b"URL:http://example.org/", b"/URL:http://e.org/a b",
            b"/URL:x", b"/URL:http://e.org/\"q", b"/" + b"A" * 3000,
+           # virtual selectors on names that do not exist, inside directories that do (nothing may come into being)
+           b"/ghost|/MAILDIR-MESSAGE/1", b"/umn/ghost|/MAILDIR-MESSAGE/1", b"/gm/ghost2?/MAILDIR-MESSAGE/2", b"/ghost3|/MBOX-MESSAGE/1",
+           b"/umn/ghost4.mbox|/MBOX-MESSAGE/1", b"/ghost5.zip/inner.txt", b"/ghost6.pyg?x", b"/umn/ghost7/|/MAILDIR-MESSAGE/1",
            # numbers longer than the interpreter converts (int() refuses more than 4300 digits)
            b"/mail.mbox|/MBOX-MESSAGE/" + b"9" * 4400, b"/md|/MAILDIR-MESSAGE/" + b"1" * 5000, b"/mail.mbox|/MBOX-MESSAGE/-" + b"9" * 4400,
            # NUL in front of, inside and behind the real part of selectors that carry a virtual argument
@@ -205,6 +209,22 @@ def run_site(chk: Check, sc: Scratch, idx: int, nhist: int, histlen: int) -> Non
     root = sc.sub("root%d" % idx)
     model.tree.materialize(root)
     run = Runner(chk)
+
+    def tree_snapshot():
+        out = {}
+        for dp, dn, fn in os.walk(os.fsencode(root)):
+            for n in dn + fn:
+                if n.startswith(b".cache.pygopherd"):
+                    continue
+                p = os.path.join(dp, n)
+                try:
+                    st = os.lstat(p)
+                    out[p[len(root):]] = (st.st_mode, st.st_size if not os.path.isdir(p) else 0)
+                except OSError:
+                    pass
+        return out
+
+    pristine = tree_snapshot()
     for hl_name, hl in (("default", None), ("full", driver.HANDLERS_FULL_REWRITE)):
         full = hl is not None
         # the shipped configuration logs to syslog; the full handler list is run with the file logger
@@ -315,6 +335,13 @@ def run_site(chk: Check, sc: Scratch, idx: int, nhist: int, histlen: int) -> Non
                         break
                 else:
                     chk.case(("history", hl_name, len(set(seq))), None)
+            # none of these requests writes: the served tree is what it was (the server's own cache files apart)
+            now = tree_snapshot()
+            if now != pristine:
+                changed = sorted(k for k in set(now) | set(pristine) if now.get(k) != pristine.get(k))
+                chk.witness("C03/read-only-requests-changed-the-served-tree", {"ctx": hl_name, "changed": changed[:8]})
+                return
+            chk.count("tree_snapshots_compared")
         finally:
             site.close()
 
